@@ -905,7 +905,8 @@ func r6Open(c *RuleCtx) {
 	for _, n := range []string{"loadConfig", "loadFieldsNew", "loadDvReaders"} {
 		c.add(statusOf(want[n]), name+"/loader/"+n, c.fpos(fn), "Open runs "+n+" on the new segment", n+" is not called on the segment under construction", props, nil)
 	}
-	tr := func(in ssa.Instruction, ev uint64, _ bool) []uint64 {
+	var tr transferFn
+	tr = func(in ssa.Instruction, ev uint64, _ bool) []uint64 {
 		if in == ssa.Instruction(segAlloc) {
 			return []uint64{ev | evSegBuilt}
 		}
@@ -926,6 +927,28 @@ func r6Open(c *RuleCtx) {
 		for _, l := range loaders {
 			if ssa.Instruction(l.site) == in {
 				return []uint64{ev | l.bit}
+			}
+		}
+		return nil
+	}
+	// a local closure (`closeAndFail`) does, at its call, what its body does on every path
+	base := tr
+	closureSum := map[*ssa.Function]uint64{}
+	tr = func(in ssa.Instruction, ev uint64, d bool) []uint64 {
+		if r := base(in, ev, d); r != nil {
+			return r
+		}
+		if cs, ok := in.(ssa.CallInstruction); ok {
+			if f := resolvedCallee(cs); f != nil && f.Parent() != nil && rootParent(f) == fn {
+				s, done := closureSum[f]
+				if !done {
+					closureSum[f] = 0
+					s = mustEvents(f, base) & (evFClosed | evSegClosed)
+					closureSum[f] = s
+				}
+				if s != 0 {
+					return []uint64{ev | s}
+				}
 			}
 		}
 		return nil
